@@ -446,6 +446,7 @@ def run(chk: core.Check) -> None:
         raise tla.MachineryError(f'spec disagrees with libxml2 on the XPath 1.0 fragment ({len(oracle_msgs)}): {oracle_msgs[:8]}')
     chk.coverage['constants'] = consts
     chk.coverage['exhaustive'] = True
-    chk.coverage['rule'] = ('every Cmp(kind, op) edge of Compare (all ordered pairs of the 61-item universe and all operand '
-                            'sequences up to MaxLen over the sequence pool, x 6 operators x value/general) and every Fn/Bin edge of '
-                            'Logic is one case per configuration v20 v30 v31 c20 c31 c10 and spelling (constructor, literal, XPath 1.0)')
+    chk.coverage['rule'] = ('every Cmp(kind, op) edge of Compare (all ordered pairs of the 60-item universe (58 atomic values, 2 nodes) and the empty sequence, all operand sequences up to '
+                            'MaxLen over the sequence pool; x 6 operators x value/general) and every Fn/Bin edge of Logic is one case per '
+                            'configuration (v20 v31 c20 c10 always; v30 c31 on single pairs) and spelling (constructor calls; literals on '
+                            'v20/c20; XPath 1.0 text on c10); a failing sequence case is traced to its first failing operand pair')
